@@ -69,16 +69,15 @@ def run_one(prop, m, repo="/repo", run_tests=False):
 
 
 def main():
+    from concurrent.futures import ThreadPoolExecutor
+
     prop = sys.argv[1].upper()
-    only = sys.argv[2:] if len(sys.argv) > 2 else None
+    args = [a for a in sys.argv[2:] if not a.startswith("--")]
     run_tests = "--tests" in sys.argv
-    bank = load_bank(prop)
-    out = []
-    for m in bank:
-        if only and not any(o in m["name"] for o in only if not o.startswith("--")) and any(not o.startswith("--") for o in only):
-            continue
-        r = run_one(prop, m, run_tests=run_tests)
-        out.append(r)
+    bank = [m for m in load_bank(prop) if not args or any(o in m["name"] for o in args)]
+    with ThreadPoolExecutor(max_workers=int(os.environ.get("PV_JOBS", "5"))) as ex:
+        out = list(ex.map(lambda m: run_one(prop, m, run_tests=run_tests), bank))
+    for r in out:
         print(json.dumps(r))
     caught = sum(1 for r in out if r["status"] == "caught")
     print(f"{prop}: {caught}/{len([r for r in out if r['status'] != 'stale'])} mutants caught")
